@@ -22,14 +22,17 @@ E = "EndOfEpisodeError"
 
 
 def run(ck, an, tier):
+    from rules import C04 as _c04x, ledger as _ledgerx
+    from sa.report import Renamed as _Rx
+    _c04x.env_side(_ledgerx._Only(_Rx(ck, "C04:"), {"batches-not-mutated", "latent-batch-consumed"}), an)      # every episode is delivered the same quotes: the batches are the transmitter's own lists and are never emptied in place
     from sa.report import Renamed
     from rules import ledger
     d = Renamed(ck, "C05:")
-    ledger.marking_equations(d, an, {"equations", "margin"})      # the NLV tested is the liquidation-side, marked-to-market value
+    ledger.marking_equations(d, an, {"equations", "margin", "guards"})      # the NLV tested is the liquidation-side, marked-to-market value
     ledger.valuation_formulas(d, an, {"nlv"})
     # the adverse quote must reach the valuation: every given price becomes a quote, and every quote for a live book updates it
     from rules import C18, C14
-    C18.s1(ledger._Only(Renamed(ck, "C18:"), {"every-price-row", "every-price-column", "quote-recorded"}), an)
+    C18.s1(ledger._Only(Renamed(ck, "C18:"), {"every-price-row", "every-price-column", "quote-recorded", "prices-with-configured-spread", "prices-table-untouched"}), an)
     C14.s2(Renamed(ck, "C14:"), an)
     C14.s3(Renamed(ck, "C14:"), an)
     silent(ck, an)
